@@ -13,7 +13,7 @@ ORACLE_OF = {
     'C07': ['serial-dispatched-alone-in-its-batch', 'serial-isolation'],
     'C08': ['fail-fast-stops-dispatching', 'fail-fast-without-failure-runs-everything', 'every-started-attempt-finishes', 'brackets'],
     'C03': ['brackets'],
-    'C05': ['retry-sequencing', 'retry-not-before-delay', 'others-run-during-retry-delay'],
+    'C05': ['retry-sequencing', 'retry-not-before-delay', 'others-run-during-retry-delay', 'in-flight-attempts-progress-during-retry-delay'],
     'C10': ['panic-hook-restored', 'panic-hook-silenced-while-running'],
 }
 
@@ -49,19 +49,36 @@ def worlds(tier, focus):
         for late in ((1, 2) if tier != 'thorough' else (1, 2, 3, 5)):
             W.append(('lazy-idle late=%d' % late, World([Scen('a', 'C', 0, None, durs=(0,), fails=(False,))], 2, parser=[(late, 0)])))
             W.append(('lazy-two late=%d' % late, World([Scen('a', 'C', 0, None, durs=(2,), fails=(False,)), Scen('b', 'C', 1, 0, durs=(0,))], 2, parser=[(0, 0), (late, 1)])))
+        # the parser reports its end late: after the last feature's scenarios have all finished
+        for late in ((3, 6) if tier != 'thorough' else (1, 3, 6, 10)):
+            W.append(('lazy-late-end late=%d' % late, World([Scen('a', 'C', 0, None, durs=(0,), fails=(False,))], 2, parser=[(0, 0), (late, 'end')])))
         for da, db in (((6, 3), (5, 1)) if tier != 'thorough' else ((6, 3), (5, 1), (8, 2), (4, 4))):
             W.append(('late-serial a=%d b=%d' % (da, db),
                       World([Scen('a', 'C', 0, None, durs=(da,), fails=(False,)), Scen('b', 'C', 0, None, durs=(db,), fails=(False,)),
                              Scen('s', 'S', 1, None, durs=(1,), fails=(False,))], 3, parser=[(0, 0), (2, 1)])))
+    if focus in ('C03', 'C08', 'C04'):
+        # fail-fast trips while the lazy parser has not finished: the run must still end with run-Finished last
+        for late in ((2, 4) if tier != 'thorough' else (1, 2, 4, 6)):
+            W.append(('failfast-lazy late=%d' % late,
+                      World([Scen('a', 'C', 0, None, durs=(0,), fails=(True,)), Scen('b', 'C', 1, None, durs=(0,), fails=(False,))], 2, fail_fast=True,
+                            parser=[(0, 0), (late, 1)])))
     if focus in ('C07', 'C05'):
         for da, db in (((2, 7),) if tier != 'thorough' else ((2, 7), (1, 9), (3, 5))):
             W.append(('delayed-serial-retry a=%d b=%d' % (da, db),
                       World([Scen('s', 'S', 0, None, budget=1, delay=True, durs=(0, 0), fails=(True, False)), Scen('a', 'C', 0, None, durs=(da,), fails=(False,)),
                              Scen('b', 'C', 0, None, durs=(db,), fails=(False,))], 2)))
+        # two serial scenarios, the first one retried after a delay while the second (long) one runs: the retry must wait
+        for db in ((4,) if tier != 'thorough' else (2, 4, 7)):
+            W.append(('two-serials-one-delayed-retry b=%d' % db,
+                      World([Scen('s', 'S', 0, None, budget=1, delay=True, durs=(0, 0), fails=(True, False)), Scen('t', 'S', 0, None, durs=(db,), fails=(False,))], 2)))
     if focus == 'C05':
         for da in ((1, 4) if tier != 'thorough' else (0, 1, 4, 7)):
             W.append(('delayed-retry+bystander a=%d' % da,
                       World([Scen('r', 'C', 0, None, budget=1, delay=True, durs=(0, 0), fails=(True, False)), Scen('a', 'C', 0, None, durs=(da,), fails=(False,))], 2)))
+        for da in ((1, 2) if tier != 'thorough' else (1, 2, 3)):
+            W.append(('long-delay+in-flight-bystander a=%d' % da,
+                      World([Scen('r', 'C', 0, None, budget=1, delay=True, durs=(0, 0), fails=(True, False)), Scen('a', 'C', 0, None, durs=(da,), fails=(False,))], 2,
+                            sleep_polls=da + 3)))
     for d in ([(0, 0, 0), (1, 0, 0)] if tier != 'thorough' else durs3):
         for limit in (2, 3):
             W.append(('failfast-plain d=%s limit=%s' % (d, limit),
